@@ -96,6 +96,7 @@ class PathCtx:
             self.solver.set('random_seed', explorer.seed % (2 ** 30))
             self.light.set('random_seed', explorer.seed % (2 ** 30))
         self.n_heavy = 0
+        self.last_model = None
         self.atoms = []
         self.atom_keys = []
         self.atom_by_key = {}
@@ -194,6 +195,8 @@ class PathCtx:
         model = None
         if r == z3.sat:
             model = solver.model()
+            if not light:
+                self.last_model = model
         if r == z3.unknown and not light and portfolio and self.ex.oneshot:
             # portfolio: z3's incremental mode and its one-shot pipeline (nlsat) have
             # different strengths; a fresh solver without a wall-clock timeout parameter
